@@ -573,10 +573,10 @@ func c13b(c *Ctx) {
 	}
 }
 
-var topLevelStopRe = regexp.MustCompile(`^-@parser\.topLevelTokens\[\$0\.peekToken(?:![A-Za-z0-9]+)?\.Type\](#1)?$`)
-
 func c13c(c *Ctx) {
-	tbl, ok := c.globalMapLiteral("parser", "topLevelTokens")
+	tlName := c.W.GlobalNamed("parser", "topLevelTokens", "map[token.Type]bool")
+	topLevelStopRe := regexp.MustCompile(`^-@parser\.` + regexp.QuoteMeta(tlName) + `\[\$0\.peekToken(?:![A-Za-z0-9]+)?\.Type\](#1)?$`)
+	tbl, ok := c.globalMapLiteral("parser", tlName)
 	if !ok {
 		c.Unk("anchor:parser.topLevelTokens", "-", "topLevelTokens not found")
 		return
@@ -599,7 +599,7 @@ func c13c(c *Ctx) {
 	// the scan loop exits on topLevelTokens[peek.Type] or EOF
 	okStop := false
 	instrs(fn, func(in ssa.Instruction) {
-		if lk, isLk := in.(*ssa.Lookup); isLk && lk.CommaOk && c.term(fn, lk.X) == "@parser.topLevelTokens" && strings.Contains(c.term(fn, lk.Index), "peekToken") {
+		if lk, isLk := in.(*ssa.Lookup); isLk && lk.CommaOk && c.term(fn, lk.X) == "@parser."+tlName && strings.Contains(c.term(fn, lk.Index), "peekToken") {
 			okStop = true
 		}
 	})
